@@ -14,7 +14,8 @@ N_QUICK, N_THOROUGH = 600, 6000
 SHARD = 150
 RULE = ("seeded random variables (domains of 1-3 distinct integer values; plain, cost-dict and "
         "cost-function variables) and matrix constraints with small, tie-heavy, 2^31-boundary, "
-        "2^40-scale and +/-inf tables, min and max; calls of find_arg_optimal, find_optimal, "
+        "2^40-scale and +/-inf tables, and (30 % of the multi-constraint cases) int8/int16/int32 "
+        "numpy tables or int64 tables around 2^62 whose sums leave the dtype, min and max; calls of find_arg_optimal, find_optimal, "
         "optimal_cost_value, assignment_cost, projection, and one evaluation step of the real "
         "DsaComputation (variants A/B/C), ADsaComputation.tick and DsaTutoComputation.on_new_cycle "
         "with the random draws supplied by the case; a multi-cycle stream (one real DSA / A-DSA / "
@@ -45,6 +46,21 @@ META = dict(
 
 
 # ------------------------------------------------------------------ generator
+def _maybe_fixed_width(rng, c, p=0.3):
+    """30 %: all constraints are int8 / int16 / int32 numpy tables (or int64 ones around 2^62) whose
+    entries fit the dtype but whose sums do not: the helpers add Python numbers, nothing may wrap"""
+    if not c["cs"] or rng.random() >= p:
+        return
+    dt = rng.choice(["int8", "int8", "int16", "int32", "int64"])
+    for r in c["cs"]:
+        r["dtype"] = dt
+        r["table"] = R.edge_table(rng, dt, len(r["table"]))
+    c["fixed_width"] = dt
+    if dt == "int64":       # keep the whole sum in exact integer arithmetic (no float own cost)
+        for v in c["vars"]:
+            v["costs"] = [[d, t if isinstance(t, int) else rng.randint(-5, 20)] for d, t in v["costs"]]
+
+
 def _gen_multi(rng, c):
     """several successive cycles of one real computation: variable 0 with 2-3 neighbours; per
     cycle one value per neighbour, delivered in a per-cycle arrival order"""
@@ -72,6 +88,7 @@ def _gen_multi(rng, c):
         r["dims"] = [v["id"] for v in dims]
         cs.append(r)
     c["cs"] = cs
+    _maybe_fixed_width(rng, c)
     c["variant"] = rng.choice(["A", "B", "C"])
     c["prob"] = rng.choice([0.7, 1.0, 1.0])
     c["cur"] = rng.choice(x["dom"])
@@ -135,6 +152,7 @@ def gen(rng, n, tier):
                 r["dims"] = [v["id"] for v in dims]
                 cs.append(r)
             c["cs"] = cs
+            _maybe_fixed_width(rng, c)
             used = []
             for r in cs:
                 for d in r["dims"]:
@@ -609,6 +627,8 @@ def histogram(cases, obs):
         h[k] = h.get(k, 0) + 1
         if isinstance(o, dict) and "error" in o:
             h["raised " + o["error"]] = h.get("raised " + o["error"], 0) + 1
+        if c.get("fixed_width"):
+            h["fixed-width " + c["fixed_width"]] = h.get("fixed-width " + c["fixed_width"], 0) + 1
         if isinstance(o, dict) and c["kind"] == "multi" and "cycles" in o:
             h["multi cycles"] = h.get("multi cycles", 0) + len(o["cycles"])
             h["multi moves"] = h.get("multi moves", 0) + sum(1 for oc in o["cycles"] if oc.get("selected"))
